@@ -103,17 +103,17 @@ type wrun struct {
 	part   *wmpt.WeightedMerkleTrie
 
 	// fault injection
-	fired0         int      // number of fired failures when the current op started
-	quiet          bool     // oracle failures are held back while an armed storage failure may fire
-	held           []string // … here
-	heldUncov      bool
-	retrying       bool // the current op is the retry of an op that failed through an injected storage failure
-	faultInOp      bool // the armed failure fired during the current op
-	abandoned      bool // an observation matched: the rest of the case is skipped
-	faultClass     string
-	faultK         int
-	createdSuspect bool            // a Get failed (and was swallowed) during the last commit
-	changed        map[string]bool // keys changed since the last commit / reload / rollback
+	fired0           int      // number of fired failures when the current op started
+	quiet            bool     // oracle failures are held back while an armed storage failure may fire
+	held             []string // … here
+	heldUncov        bool
+	retrying         bool // the current op is the retry of an op that failed through an injected storage failure
+	faultInOp        bool // the armed failure fired during the current op
+	abandoned        bool // an observation matched: the rest of the case is skipped
+	faultClass       string
+	faultK           int
+	commitReadFailed bool            // a Get failed inside the last Commit: its "created" list may miss nodes (fix 955fb55: leak, not loss)
+	changed          map[string]bool // keys changed since the last commit / reload / rollback
 }
 
 type wdurable struct {
@@ -267,7 +267,7 @@ func (x *wrun) step(i int, f []string) string {
 		// the failure was swallowed (or hit a call whose result is not part of the answer): ordinary oracles
 		x.tags["fault-swallowed:"+x.faultClass+":"+f[0]] = true
 		if x.faultClass == "get" && strings.HasPrefix(f[0], "commit") {
-			x.createdSuspect = true
+			x.commitReadFailed = true
 		}
 		for _, m := range held {
 			x.failMsg(m)
@@ -467,7 +467,7 @@ func (x *wrun) step1(i int, f []string) string {
 		x.committed = x.live.clone()
 		x.changed = nil
 		if x.st.fired() == x.fired0 && len(es) > 0 && len(es[0].ops) > 0 {
-			x.createdSuspect = false // a commit that wrote something replaced the list
+			x.commitReadFailed = false // a later commit that wrote something replaced the list
 		}
 		x.dirty, x.hashedDirty = false, false
 		x.durable = append(x.durable, wdurable{x.st.logLen(), x.croot, x.cweight, x.committed})
@@ -642,19 +642,6 @@ func (x *wrun) step1(i int, f []string) string {
 		if x.cp == nil {
 			return "skip"
 		}
-		if x.createdSuspect {
-			// a read failed inside the last Commit's "created" filter (it asks storage whether a node it wrote existed
-			// before; the error is taken for "did not exist"): the rollback may then delete a node of the checkpoint
-			wasQuiet, n0 := x.quiet, len(x.held)
-			x.quiet = true
-			out := x.opRollback(i, f[0])
-			x.quiet = wasQuiet
-			if len(x.held) > n0 {
-				x.held = x.held[:n0]
-				x.observe("rollback-deletes-a-checkpoint-node-after-a-read-failure-inside-commit")
-			}
-			return out
-		}
 		return x.opRollback(i, f[0])
 	case "getpath":
 		var keys [][]byte
@@ -792,6 +779,14 @@ func (x *wrun) opRollback(i int, kind string) string {
 		if !cp.keysThen[k] && now[k] {
 			left = append(left, k)
 		}
+	}
+	if x.commitReadFailed {
+		// a storage read failed inside the rolled-back Commit: since fix 955fb55 a node whose earlier existence could not be
+		// established is kept out of the "created" list — the rollback leaves it behind (a leak) instead of risking a node of
+		// the checkpoint; the checkpoint itself is held to the full oracle, now and after the following GC passes
+		x.tags["rollback-after-commit-read-failure"] = true
+		left = nil
+		x.commitReadFailed = false
 	}
 	if x.st.fired() != x.fired0 {
 		// the clean-up batch failed (Rollback has no error result): the rolled-back commit's nodes stay behind as orphans;
